@@ -52,9 +52,12 @@ func genC03(t *rapid.T) c03Scenario {
 		// cancellation after a history of cycles
 		sc.Stop.AtMs = -1
 		n := rapid.IntRange(1, 30).Draw(t, "n")
+		cvGen := rapid.OneOf(rapid.IntRange(0, 255), rapid.IntRange(0, 255), rapid.SampledFrom([]int{0, 255}))
 		for i := 0; i < n; i++ {
-			sc.Steps = append(sc.Steps, sim.Step{Curve: rapid.IntRange(0, 255).Draw(t, "cv")})
+			sc.Steps = append(sc.Steps, sim.Step{Curve: cvGen.Draw(t, "cv")})
 		}
+		// a write-only fan: whatever fan2go believes the fan is at, it has only its own last write to go by
+		sc.PwmUnreadable = sc.Fan.Kind != "cmd" && rapid.IntRange(0, 2).Draw(t, "pwmUnreadable") == 0
 	case path >= 10:
 		// the stop request arrives while a control cycle is in flight (the harness owns that schedule:
 		// the cancellation is issued from inside a device write of the cycle, which is then held)
@@ -164,6 +167,9 @@ func runC03(t *testing.T, sc c03Scenario) verdict {
 		vs = append(vs, sim.Violation{Key: "run-returned-error-after-regulation-began", Msg: res.RunErr})
 	}
 	labels := []string{"kind:" + sc.Loop.Fan.Kind, fmt.Sprintf("origMode:%d", sc.Loop.Fan.OrigMode)}
+	if sc.Loop.PwmUnreadable {
+		labels = append(labels, "pwm-write-only")
+	}
 	if excl != "" {
 		labels = append(labels, "excluded:"+excl)
 	}
